@@ -404,3 +404,9 @@ from vx import transrest_mutants_proposed as _TR
 for _m in (_FH, _TR):
     for _k, _v in _m.MUTANTS.items():
         MUTANTS.setdefault(_k, []).extend(_v)
+
+# src/common/async_file.rs (unit asyncfile) and the D32 repair
+from vx import asyncfile_mutants_proposed as _AF
+for _src in (_AF.MUTANTS, _AF.MUTANTS_A1_REPAIR):
+    for _k, _v in _src.items():
+        MUTANTS.setdefault(_k, []).extend(_v)
